@@ -47,13 +47,14 @@ def run(ctx, rep):
     sh = ctx.shape
     rep.rule("R11-WALKS", "every conversion / interning walk has an explicit arm per Term constructor and passes every sub-term to the recursion", floor=100)
     rep.rule("R11-SCOPE", "Lambda arm protocol: declare -> lookup -> start_scope -> body -> end_scope (-> remove), once each, same unique; start/end symmetric", floor=8)
-    rep.rule("R11-INTERN", "CodeGenInterner: bind -> body -> unbind on the same key; lookup returns the innermost active binder", floor=3)
+    rep.rule("R11-INTERN", "CodeGenInterner: bind -> body -> unbind on the same key; lookup returns the innermost active binder; keys hold text and previous unique unconditionally", floor=5)
     rep.rule("R11-FREE", "a failed lookup is Err on every path (FreeUnique / FreeIndex, checked_sub); TryFrom impls own a fresh Converter and propagate with ?", floor=10)
     rep.rule("R11-PRIM", "the scope primitives (declare/remove/start/end, bind/unbind) are unconditional: no branch or early return can skip the bookkeeping a Lambda arm relies on", floor=7)
     rep.guarded("R11-PRIM", lambda: r_prim(sh, rep))
     rep.guarded("R11-WALKS", lambda: r_walks(sh, rep))
     rep.guarded("R11-SCOPE", lambda: r_scope(sh, rep))
     rep.guarded("R11-INTERN", lambda: r_intern(sh, rep))
+    rep.guarded("R11-INTERN", lambda: r_internkey(sh, rep))
     rep.guarded("R11-FREE", lambda: r_free(sh, rep))
 
 
@@ -198,6 +199,33 @@ def r_intern(sh, rep):
     rep.check("letunique=self.fresh_unique();self.identifiers.entry(key).or_default().push(unique);unique" in bd, "R11-INTERN", "bind#fresh-push", OI, "bind must push a fresh unique on the key's stack and return it")
     ub = sh.nsrc(OI, find_method(fj, "CodeGenInterner", "unbind")["body"])
     rep.check("uniques.pop()" in ub and ub.count(".pop()") == 1, "R11-INTERN", "unbind#pop-once", OI, "unbind must pop exactly one entry")
+
+
+def r_internkey(sh, rep):
+    """The interner tells binders apart by (text, previous unique). Both components take part in equality and hashing
+    (derived on the struct), and every key that is built takes both from its inputs unconditionally: a key that drops
+    or defaults one component under some condition merges distinct binders that agree on the other one."""
+    fj = sh.file(OI)
+    sd = find_struct(fj, "InternKey")
+    if sd is None:
+        raise AnchorMissing("struct InternKey in optimize/interner.rs")
+    der = ",".join(a for a in sd["attrs"] if a.startswith("derive("))
+    tys = sorted(f["ty"] for f in sd["fields"])
+    manual = [i for i in find_impls(fj, "InternKey", any_trait=True) if last(i.get("trait") or "") in ("Hash", "PartialEq", "Eq")]
+    rep.check(all(t in der for t in ("Hash", "PartialEq", "Eq")) and not manual and "String" in tys and "Unique" in tys, "R11-INTERN", "InternKey#derived-eq-hash-over-text-and-unique", sh.loc(OI, sd), "InternKey must carry the binder's text and its previous unique and compare / hash both (derived): fields %s, %s, %d manual impl(s)" % (tys, der, len(manual)), sample={"fields": tys})
+    lits = 0
+    for qual, fn in all_fns(fj):
+        for n in walk(fn["body"]) if fn.get("body") else ():
+            if n["k"] == "Struct" and last(n["p"]) in ("InternKey", "Self") and (last(n["p"]) == "InternKey" or qual.startswith("InternKey")):
+                lits += 1
+                given = {f["name"] for f in n["fields"]}
+                cond = [x["k"] for f in n["fields"] for x in walk(f["e"]) if x["k"] in ("If", "Match", "Closure", "Lit", "Macro")]
+                params = {i["pat"].get("name") for i in fn["sig"]["inputs"] if isinstance(i.get("pat"), dict)}
+                loose = [f["name"] for f in n["fields"] if not any(x["k"] == "Path" and x["p"].split("::")[0].split(".")[0] in params for x in walk(f["e"]))]
+                cond += ["%s-not-from-a-parameter" % x for x in loose]
+                rep.check(given == {f["name"] for f in sd["fields"]} and not n.get("rest") and not cond, "R11-INTERN", "InternKey#literal#%s#%d" % (qual, lits), sh.loc(OI, n), "a key built in %s does not take every component straight from its inputs (fields %s, conditional/constant parts %s): binders that differ only in the dropped component share one stack of uniques" % (qual, sorted(given), cond), sample={"fn": qual})
+    if lits < 1:
+        rep.bad("R11-INTERN", "InternKey#literals", OI, "no InternKey literal found (anchor)")
 
 
 def r_free(sh, rep):
